@@ -164,6 +164,9 @@ def generate(ctx, n_ops):
         declared = set()
         verify_budget = 3
         outcomes = {}
+        history_queries = []
+        requery = []
+        size = {anchor: 1}
         for step in range(rng.randint(15, 40)):
             r = rng.random()
             if pending_defs and (r < 0.25 or len(names) < 2):
@@ -180,8 +183,15 @@ def generate(ctx, n_ops):
                 b = rng.choice([x for x in pool if x != a])
                 if (a, b) in declared or (b, a) in declared:
                     continue
-                k = rng.choice([2, 3, 5, 10, 12, 0.5, 2.54, 1000])
-                mag = ("i:%d" % k) if isinstance(k, int) else ftok(k)
+                # declarations are mutually CONSISTENT: every unit has a hidden size (a power of two,
+                # so every ratio is exact in binary floating point) and 1 a = (size a / size b) b.
+                # With inconsistent declarations the answer legitimately depends on the route, and the
+                # route on object identities - that is not what C08 is about.
+                for x in (a, b):
+                    if x not in size:
+                        size[x] = rng.choice([1, 2, 4, 8, 16, 1024, 0.5, 0.25, 0.125])
+                k = size[a] / size[b]
+                mag = ("i:%d" % int(k)) if k >= 1 and k == int(k) else ftok(k)
                 expr = {"f": [[b, 1]]}
                 ub = yield from build(expr)
                 res = yield emit("U\tnamed\t%s" % a)
@@ -198,26 +208,39 @@ def generate(ctx, n_ops):
                 if res == "ok":
                     declared.add((a, b))
                     ctx.actions.append(["equate", a, mag, expr])
+                    # ask again what was asked before about these units (a query or a COMPARISON that
+                    # failed or answered differently before the declaration must see it now)
+                    touched = {a} | {x[0] for x in expr.get("f", [])}
+                    again = [q for q in history_queries if touched & {x[0] for x in q[3]["f"] + q[4]["f"]}]
+                    rng.shuffle(again)
+                    requery.extend(again[:2])
                 continue
             # a query
             if len(pool) < 2:
                 continue
-            e = rng.choice([1, 1, 1, 2, -1])
-            a, b = rng.sample(pool, 2)
-            ea = {"f": [[a, e]]}
-            eb = {"f": [[b, e]]}
-            if rng.random() < 0.25:
-                ea["p"] = rng.choice(["kilo", "milli", "centi"])
-            if rng.random() < 0.3 and len(pool) >= 3:
-                c = rng.choice([x for x in pool if x not in (a, b)])
-                ea["f"].append([c, 1])
-                eb["f"].append([c, 1])
-            mag = rng.choice(["i:1", "i:3", ftok(2.5), "i:-4"])
+            forced = requery.pop() if requery and rng.random() < 0.8 else None
+            if forced is not None:
+                kind, op, mag, ea, eb = forced
+            else:
+                e = rng.choice([1, 1, 1, 2, -1])
+                a, b = rng.sample(pool, 2)
+                ea = {"f": [[a, e]]}
+                eb = {"f": [[b, e]]}
+                if rng.random() < 0.25:
+                    ea["p"] = rng.choice(["kilo", "milli", "centi"])
+                if rng.random() < 0.3 and len(pool) >= 3:
+                    c = rng.choice([x for x in pool if x not in (a, b)])
+                    ea["f"].append([c, 1])
+                    eb["f"].append([c, 1])
+                mag = rng.choice(["i:1", "i:3", ftok(2.5), "i:-4"])
+                kind = "query" if rng.random() < 0.7 else "cmp"
+                op = rng.choice(["eq", "lt", "ge"])
+                history_queries.append((kind, op, mag, ea, eb))
             ua = yield from build(ea)
             ub = yield from build(eb)
             if ua is None or ub is None:
                 continue
-            if rng.random() < 0.75:
+            if kind == "query":
                 action = ["query", mag, ea, eb]
                 res = yield emit("X\tqnew\t%s\tu%d" % (mag, ua))
                 qa = qn
@@ -226,7 +249,6 @@ def generate(ctx, n_ops):
                 if res.startswith("ok\tq"):
                     qn += 1
             else:
-                op = rng.choice(["eq", "lt", "ge"])
                 action = ["cmp", op, mag, ea, "i:2", eb]
                 res = yield emit("X\tqnew\t%s\tu%d" % (mag, ua))
                 qa = qn
